@@ -60,6 +60,10 @@ pub struct SchedCase {
     pub program: Vec<POp>,
     pub cfg: CCfg,
     pub choices: Vec<u8>,
+    /// the lock holder may also be preempted right after acquiring the lock (inside the critical
+    /// section); the other actor then finds the lock held
+    #[serde(default)]
+    pub cs_yield: bool,
 }
 
 #[derive(Clone, Copy, PartialEq, Eq, Debug)]
@@ -315,12 +319,14 @@ thread_local! {
     static ACTOR: std::cell::Cell<Option<Actor>> = const { std::cell::Cell::new(None) };
 }
 
-fn install(sched: &Arc<Sched>, me: Actor) {
+fn install(sched: &Arc<Sched>, me: Actor, cs_yield: bool) {
     ACTOR.with(|a| a.set(Some(me)));
     let s = sched.clone();
     set_thread_callback(Some(Box::new(move |ev| match ev {
         Event::BeforeLock => s.yield_point(me, true),
         Event::Contended => s.yield_point(me, false),
+        // inside the critical section: the other actor can run until it needs the lock
+        Event::Acquired if cs_yield => s.yield_point(me, true),
         _ => {}
     })));
 }
@@ -341,7 +347,7 @@ pub struct Outcome {
 }
 
 fn producer(sched: Arc<Sched>, mut w: crate::props::stream::SWriter, case: SchedCase) {
-    install(&sched, Actor::P);
+    install(&sched, Actor::P, case.cs_yield);
     let mut pos = 0u64;
     for (i, op) in case.program.iter().enumerate() {
         sched.yield_point(Actor::P, true); // operation boundary
@@ -499,7 +505,7 @@ fn producer(sched: Arc<Sched>, mut w: crate::props::stream::SWriter, case: Sched
 }
 
 fn consumer(sched: Arc<Sched>, body: SBody, case: SchedCase, out: Arc<Mutex<Trace<HarnessError>>>) {
-    install(&sched, Actor::C);
+    install(&sched, Actor::C, case.cs_yield);
     let mut body = Box::pin(body);
     let mut gen = 1u64;
     let mut waker = Waker::from(Arc::new(SchedWaker { sched: sched.clone(), gen }));
@@ -1030,6 +1036,7 @@ fn random_strategy(with_abort: bool) -> BoxedStrategy<SchedCase> {
                     stop_at_eos: sample && dropsel % 2 == 0,
                 },
                 choices,
+                cs_yield: dropsel % 4 == 3,
             }
         })
         .boxed()
@@ -1038,7 +1045,7 @@ fn random_strategy(with_abort: bool) -> BoxedStrategy<SchedCase> {
 pub const META_C10: Meta = Meta {
     id: "C10",
     level: "exploration",
-    rule: "Schedule enumeration on the real chunker code through hook H1: producer programs of up to 4 operations (thorough 5, and all 6-operation programs; thorough also chunk size 3 with writes of 1, 2, 4 and 7 bytes) over {write(1), write(2), flush, wait-until-delivered} + drop (random programs also write_all of up to 300 bytes, i.e. hundreds of chunks), chunk size 2 (identity) and of up to 3 operations with the gzip writer (chunk size 6; every operation is several chunker writes), against a consumer that parks on Pending, with same/fresh waker per poll (wakes to superseded wakers are ignored), 0 or 2 spurious polls, with/without is_end_stream/size_hint sampling, a consumer that stops polling once is_end_stream() is true, writer / body dropped normally or while the thread unwinds from a panic; every schedule with <= 2 preemptions (thorough 3) is executed by stateless DFS (two real threads, exactly one runs, hand-over at lock acquisitions, wake() and operation boundaries); plus proptest over programs of <= 6 operations, chunk sizes {1,2,3,5,8}, writes of 1-17 bytes and random choice vectors (unbounded preemptions). Also programs that queue 1 MiB and more before the consumer's first poll (chunk 16-64 KiB). Oracle (history invariants): no quiescent state with the consumer parked and un-woken while data, end or abort is undelivered; everything flushed is received in order before a clean end; bounded polls after the writer is gone. Non-trivial = schedule in which the consumer parked at least once or an actor was preempted; distinct by (program, config, choice vector).",
+    rule: "Schedule enumeration on the real chunker code through hook H1: producer programs of up to 4 operations (thorough 5, and all 6-operation programs; thorough also chunk size 3 with writes of 1, 2, 4 and 7 bytes) over {write(1), write(2), flush, wait-until-delivered} + drop (random programs also write_all of up to 300 bytes, i.e. hundreds of chunks), chunk size 2 (identity) and of up to 3 operations with the gzip writer (chunk size 6; every operation is several chunker writes), against a consumer that parks on Pending, with same/fresh waker per poll (wakes to superseded wakers are ignored), 0 or 2 spurious polls, with/without is_end_stream/size_hint sampling, a consumer that stops polling once is_end_stream() is true, writer / body dropped normally or while the thread unwinds from a panic; every schedule with <= 2 preemptions (thorough 3) is executed by stateless DFS (two real threads, exactly one runs, hand-over at lock acquisitions, wake() and operation boundaries; for programs of <= 3 operations (thorough 4) and a quarter of the random cases also right after a lock acquisition, i.e. with the lock holder suspended inside its critical section so that the other actor meets a held lock); plus proptest over programs of <= 6 operations, chunk sizes {1,2,3,5,8}, writes of 1-17 bytes and random choice vectors (unbounded preemptions). Also programs that queue 1 MiB and more before the consumer's first poll (chunk 16-64 KiB). Oracle (history invariants): no quiescent state with the consumer parked and un-woken while data, end or abort is undelivered; everything flushed is received in order before a clean end; bounded polls after the writer is gone. Non-trivial = schedule in which the consumer parked at least once or an actor was preempted; distinct by (program, config, choice vector).",
     assumptions: &[
         "interleavings are at lock / wake / operation granularity: complete for this code because every shared field sits behind the one instrumented mutex",
         "no weak-memory effects (all sharing goes through std::sync::Mutex)",
@@ -1061,7 +1068,7 @@ fn run_common(cx: &Cx, c11: bool) -> Acc {
                 chunk: 2,
                 program: program.clone(),
                 cfg,
-                choices: vec![],
+                choices: vec![], cs_yield: false,
             });
         }
     }
@@ -1075,7 +1082,7 @@ fn run_common(cx: &Cx, c11: bool) -> Acc {
                         chunk: 2,
                         program: program.clone(),
                         cfg: CCfg { fresh_waker: false, spurious: 0, sample: false, extra_polls: 0, drop_after_polls: Some(k), unwinding_drops, stop_at_eos: false },
-                        choices: vec![],
+                        choices: vec![], cs_yield: false,
                     });
                 }
             }
@@ -1095,7 +1102,7 @@ fn run_common(cx: &Cx, c11: bool) -> Acc {
                 chunk: 6,
                 program: program.clone(),
                 cfg: CCfg { fresh_waker, spurious: if fresh_waker { 2 } else { 0 }, sample: false, extra_polls: 1, drop_after_polls: None, unwinding_drops: false, stop_at_eos: false },
-                choices: vec![],
+                choices: vec![], cs_yield: false,
             });
         }
     }
@@ -1113,6 +1120,50 @@ fn run_common(cx: &Cx, c11: bool) -> Acc {
         }
     }
     acc.merge(a);
+    {
+        // Preemption inside the critical section: the lock holder is suspended right after it
+        // acquired the lock and the other actor runs until it needs the lock itself (and finds it
+        // held). Equivalent to no preemption for code that waits for the lock; a `try_lock` whose
+        // failure is swallowed (a skipped state change, wake-up or disconnect mark) shows here.
+        let mut cs: Vec<SchedCase> = Vec::new();
+        for program in programs(cx.tier.pick(3usize, 4usize), c11) {
+            if c11 && !program.iter().any(|o| matches!(o, POp::Abort)) {
+                continue;
+            }
+            for (fresh_waker, sample) in [(false, false), (true, true)] {
+                cs.push(SchedCase {
+                    gzip: None,
+                    chunk: 2,
+                    program: program.clone(),
+                    cfg: CCfg { fresh_waker, spurious: 0, sample, extra_polls: 1, drop_after_polls: None, unwinding_drops: false, stop_at_eos: false },
+                    choices: vec![],
+                    cs_yield: true,
+                });
+            }
+        }
+        if c11 {
+            for program in programs(3, false) {
+                for k in [0u8, 1, 2] {
+                    cs.push(SchedCase {
+                        gzip: None,
+                        chunk: 2,
+                        program: program.clone(),
+                        cfg: CCfg { fresh_waker: false, spurious: 0, sample: false, extra_polls: 0, drop_after_polls: Some(k), unwinding_drops: false, stop_at_eos: false },
+                        choices: vec![],
+                        cs_yield: true,
+                    });
+                }
+            }
+        }
+        let phase = if c11 { "sched-abort-cs-preempt" } else { "sched-cs-preempt" };
+        let mut a = par_units(cx, phase, &cs, false, "programs of <= 3 operations; the lock holder may also be preempted inside the critical section (right after acquiring the lock), so the other actor meets a held lock; all schedules with <= 2 preemptions (thorough: <= 4 operations, <= 3 preemptions; capped)", |cx, base, acc| {
+            explore(cx, phase, base, cx.tier.pick(2usize, 3usize), cx.tier.pick(6000usize, 40_000usize), acc, c11);
+        });
+        if let Some(p) = a.phases.last_mut() {
+            p["exhaustive"] = json!(false);
+        }
+        acc.merge(a);
+    }
     if !c11 {
         // A large unread backlog (1 MiB and more queued before the consumer's first poll), then small
         // flushed and unflushed writes and the drop: all schedules with at most one preemption.
@@ -1130,7 +1181,7 @@ fn run_common(cx: &Cx, c11: bool) -> Acc {
                         chunk,
                         program: program.clone(),
                         cfg: CCfg { fresh_waker, spurious: 0, sample: false, extra_polls: 1, drop_after_polls: None, unwinding_drops: false, stop_at_eos: false },
-                        choices: vec![],
+                        choices: vec![], cs_yield: false,
                     });
                 }
             }
@@ -1146,7 +1197,7 @@ fn run_common(cx: &Cx, c11: bool) -> Acc {
                         chunk: 2,
                         program: program.clone(),
                         cfg: CCfg { fresh_waker, spurious: 0, sample: true, extra_polls: 0, drop_after_polls: None, unwinding_drops: false, stop_at_eos },
-                        choices: vec![],
+                        choices: vec![], cs_yield: false,
                     });
                 }
             }
@@ -1178,7 +1229,7 @@ fn run_common(cx: &Cx, c11: bool) -> Acc {
                 if cfg.sample {
                     continue;
                 }
-                deep.push(SchedCase { gzip: None, chunk: 2, program: program.clone(), cfg, choices: vec![] });
+                deep.push(SchedCase { gzip: None, chunk: 2, program: program.clone(), cfg, choices: vec![], cs_yield: false });
             }
         }
         for program in programs_over(&[POp::Write(1), POp::Write(2), POp::Write(4), POp::Write(7), POp::Flush, POp::Wait], 4) {
@@ -1186,7 +1237,7 @@ fn run_common(cx: &Cx, c11: bool) -> Acc {
                 if cfg.sample {
                     continue;
                 }
-                deep.push(SchedCase { gzip: None, chunk: 3, program: program.clone(), cfg, choices: vec![] });
+                deep.push(SchedCase { gzip: None, chunk: 3, program: program.clone(), cfg, choices: vec![], cs_yield: false });
             }
         }
         let complete = std::sync::atomic::AtomicBool::new(true);
@@ -1248,7 +1299,7 @@ pub fn run_for_c12(cx: &Cx) -> Acc {
                 chunk: 2,
                 program: program.clone(),
                 cfg: CCfg { fresh_waker, spurious: 1, sample: true, extra_polls: 1, drop_after_polls: None, unwinding_drops: false, stop_at_eos: false },
-                choices: vec![],
+                choices: vec![], cs_yield: false,
             });
         }
     }
@@ -1301,7 +1352,7 @@ pub fn run_for_c20(cx: &Cx) -> Acc {
                 chunk,
                 program: program.clone(),
                 cfg: CCfg { fresh_waker: false, spurious: 0, sample: false, extra_polls: 3, drop_after_polls: None, unwinding_drops: false, stop_at_eos: false },
-                choices: vec![],
+                choices: vec![], cs_yield: false,
             });
         }
     }
